@@ -21,7 +21,7 @@ func NativeRun(name, job string) {
 		fmt.Fprintln(os.Stderr, "unknown harness", name)
 		os.Exit(2)
 	}
-	h.Run(job)
+	h.Run(stripOpts(job))
 	for _, n := range sym.Notes {
 		fmt.Println("NOTE " + n)
 	}
